@@ -50,6 +50,8 @@ void count(int idx, uint64_t d = 1);
 void reset_case_state();           // engine-internal: trace, tick (called before every case)
 // logical clock of the case, invisible to sanitizers (only the baton holder runs)
 int tick();
+// general-purpose counters, reset per case, invisible to sanitizers (instance counting etc.)
+long slot_add(int i, long d); long slot_get(int i); void slot_set(int i, long v);
 
 // ---- allocation accounting (alloc.cpp) ----
 struct AllocCounters { unsigned long news, deletes, exempt_news, exempt_deletes; unsigned long bytes; };
